@@ -46,6 +46,23 @@ m = {
  "notes":"Technique family: contract-based deductive verification of the real code. See DESIGN.md. Known findings: /verif/known_findings.json.",
  "not_applicable":[]
 }
+BOUNDED_ONLY = {
+ "C10": ("BOUNDED stand-in only - not a proof and not counted as one. The allocator is WebAssembly text; the Go VC generator does not reach it and the WAT generator planned in DESIGN 4.15 was not built, so no contract obligation exists for this property. What runs: the real malloc.wat, assembled by the repo's wat2wasm and executed by the vendored engine through malloc.Heap, for every sequence of at most 4 (thorough 5) operations - malloc of a size in {0,1,8,16,24,25,32,48,80,81,128,1000,70000}, free of one of the first three live blocks - under three configurations (fixed-list capacity 0, 1, 100). After every operation each live block is 8-byte aligned, lies behind the list headers and below the bump pointer inside linear memory, is at least as large as requested, overlaps no other live block, the contents of the other live blocks are unchanged, and the call returns within 5 s.",
+         "Exhaustive within the bound, silent beyond it. Not decided even within the bound: the tiling clause and the failure clause. Assumed: the vendored engine and wat2wasm. Listed here rather than under not_applicable because the brief allows a bounded check, labelled bounded, to stand in for code the verifier cannot reach.",
+         "DESIGN.md section 4.15"),
+}
+for pid in sorted(BOUNDED_ONLY):
+    text, note, ref = BOUNDED_ONLY[pid]
+    m["checks"].append({"property_id":pid,
+      "quick_cmd": f"cd /verif && python3 tools/boundedcheck.py {pid} quick",
+      "thorough_cmd": f"cd /verif && python3 tools/boundedcheck.py {pid} thorough",
+      "evidence_file": f"/verif/evidence/{pid}.json",
+      "replay_cmd_template": "cat {path}",
+      "engine":"bounded-go-test",
+      "level_claimed":{"category":"exploration","text":text,"design_ref":ref},
+      "level_note":note,
+      "technique":"bounded exhaustive enumeration through the real code (stand-in; the contract technique does not reach WebAssembly text)"})
+m["engines"].append({"name":"bounded-go-test","path":"/verif/tools/bounded.py","serves_properties":sorted(BOUNDED_ONLY),"kind_free_text":"in-package Go test harnesses under /verif/bounded injected with go test -overlay; exhaustive enumeration up to a stated bound; labelled bounded"})
 for pid in sorted(CHECKS):
     text, note, ref = CHECKS[pid]
     m["checks"].append({"property_id":pid,
@@ -58,7 +75,7 @@ for pid in sorted(CHECKS):
       "level_note":note,
       "technique":TECH})
 for k in sorted(set(NA)|set(PLANNED)):
-    if k in CHECKS: continue
+    if k in CHECKS or k in BOUNDED_ONLY: continue
     reason = NA.get(k) or f"planned (DESIGN.md section {PLANNED[k]}), machinery not built yet"
     m["not_applicable"].append({"property_id":k,"reason":reason})
 json.dump(m, open("/verif/MANIFEST.json","w"), indent=1)
